@@ -398,6 +398,12 @@ func (m *machine) dist(d gen.Dest, amt *big.Int) *Fail {
 		return nil
 	case *gen.DstInorder:
 		left := new(big.Int).Set(amt)
+		if len(d.Clauses) == 0 {
+			// `{ remaining to X }` is, for the grammar, an allotment with a single remaining clause:
+			// X is evaluated whatever the amount
+			m.cur.DstBinding = append(m.cur.DstBinding, "rem-only")
+			return m.route(d.Remaining, left)
+		}
 		for _, c := range d.Clauses {
 			if left.Sign() == 0 {
 				m.cur.DstBinding = append(m.cur.DstBinding, "none")
@@ -447,9 +453,8 @@ func (m *machine) dist(d gen.Dest, amt *big.Int) *Fail {
 				m.res.Undetermined = "negative share"
 				continue
 			}
-			if parts[i].Sign() == 0 {
-				continue
-			}
+			// a zero share is still distributed: the nested destination is evaluated (an allotment
+			// in it is checked) although nothing arrives there
 			if f := m.route(it.To, parts[i]); f != nil {
 				return f
 			}
